@@ -325,25 +325,32 @@ def d2_sorted(chk, prog):
                        f"a table can be returned by tabio.read without having been sorted")
         else:
             chk.violate("sorted-on-read", f"skgenome.tabio.read::{norm(r)}", fi.loc(r), "return of an expression that is not known to be sorted")
-    s = prog.fn("skgenome.gary.GenomicArray.sort")
-    calls = [n for n in own_nodes(s.node) if isinstance(n, ast.Call) and isinstance(n.func, ast.Attribute) and n.func.attr == "sort_values"]
-    ok = False
-    detail = "no sort_values call"
-    if calls:
-        c = calls[0]
-        by = next((k.value for k in c.keywords if k.arg == "by"), c.args[0] if c.args else None)
-        kind = next((k.value for k in c.keywords if k.arg == "kind"), None)
-        bys = [e.value for e in by.elts] if isinstance(by, (ast.List, ast.Tuple)) and all(isinstance(e, ast.Constant) for e in by.elts) else None
-        stable = isinstance(kind, ast.Constant) and kind.value in ("mergesort", "stable")
-        keyed = any(isinstance(n, ast.Call) and norm(n.func).endswith(".apply") and n.args and norm(n.args[0]) == "sorter_chrom" for n in own_nodes(s.node))
-        asc = not any(k.arg == "ascending" for k in c.keywords)
-        ok = bool(bys) and len(bys) == 3 and bys[1:] == ["start", "end"] and stable and keyed and asc
-        detail = f"by={bys} stable={stable} chromosome key via sorter_chrom={keyed} ascending={asc}"
-        # the first key must be the column holding the sorter_chrom key
-        if ok:
-            assigns = [k.arg for n in own_nodes(s.node) if isinstance(n, ast.Call) and isinstance(n.func, ast.Attribute) and n.func.attr == "assign" for k in n.keywords]
-            ok = bys[0] in assigns
-    chk.decide(ok, "sorted-on-read", "GenomicArray.sort: stable sort by (sorter_chrom key, start, end)", "skgenome.gary.GenomicArray.sort", s.loc(), detail, detail=detail)
+    d2_sort_table(chk, prog)
+
+
+def d2_sort_table(chk, prog):
+    """GenomicArray.sort on literal tables (shared with C04: fix pairs sample and reference after sorting both)"""
+    fs = prog.fn("skgenome.gary.GenomicArray.sort")
+    tbs = Table(chk, "sorted-on-read", "GenomicArray.sort on literal shuffled tables (chr1 / chr2 / chr10 / chrX / chrM; equal starts with different ends; duplicated rows)", fs.loc(), fs.qn)
+    base = [("chr10", 5, 9), ("chr2", 7, 8), ("chr1", 30, 40), ("chrX", 0, 5), ("chr1", 10, 25), ("chr1", 10, 20), ("chrM", 1, 2), ("chr2", 7, 8), ("chr1", 10, 20)]
+    import random
+    rnd = random.Random(5)
+    orders = [list(range(len(base))), list(range(len(base)))[::-1]] + [rnd.sample(range(len(base)), len(base)) for _ in range(6)]
+    rank = {"chr1": 1, "chr2": 2, "chr10": 10, "chrX": 1000, "chrM": 2000}
+    for order in orders:
+        W.reset()
+        rows = [dict(chromosome=base[i][0], start=base[i][1], end=base[i][2], gene="-", rowid=k) for k, i in enumerate(order)]
+        g = make_ga("GenomicArray", rows, {}, index="any", exact=True, labels=[50 - k for k in range(len(rows))])
+        it = Interp(prog)
+        out = tbs.guard(lambda: ("v", it.run_method(g, "sort", [])), f"order {order}")
+        if out is None:
+            continue
+        d = g.data
+        got = list(zip(d.cols["chromosome"].v, d.cols["start"].v, d.cols["end"].v, d.cols["rowid"].v))
+        want = sorted(((r["chromosome"], r["start"], r["end"], r["rowid"]) for r in rows), key=lambda t: (rank[t[0]], t[1], t[2], t[3]))
+        renumbered = d.labels == list(range(len(rows))) or d.index == "range"
+        tbs.cell(got == want and renumbered, dict(input_order=order, got=[x[:3] for x in got], want=[x[:3] for x in want], ties_keep_input_order=[x[3] for x in got] == [x[3] for x in want], index_renumbered=renumbered))
+    tbs.done("GenomicArray.sort does not order rows by (natural chromosome order, start, end) with ties in input order, renumbered 0..n-1")
 
 
 def d1_bed_names(chk, prog):
@@ -409,6 +416,37 @@ def d1_segnames(chk, prog):
                 k += 1
         tb.cell(ok and got == want, dict(chrom_names=use_names, prefix=prefix, from_log10=log10, chromosomes=got, want=want))
     tb.done("parse_seg does not map chromosome IDs to names and then add the prefix (or loses the 1-based shift / sample split)")
+
+
+def d2_read(chk, prog):
+    """tabio.read interpreted for every registered format: the table the reader parsed comes back whole (columns kept, also with zero rows) and sorted"""
+    fi = prog.fn("skgenome.tabio.read")
+    readers = registry(prog, "READERS")
+    tb = Table(chk, "sorted-on-read", "tabio.read(fmt): reader's columns kept (2 rows / 0 rows), result sorted, sample id from the file name", fi.loc(), fi.qn)
+    extra = ("chromosome", "start", "end", "gene", "log2", "depth", "weight")
+    for fmt, rfi in sorted(readers.items()):
+        if fmt == "auto":
+            continue
+        for nrows in (2, 0):
+            W.reset()
+            model = Model()
+            ev = []
+
+            def reader(it, infile, nrows=nrows, **k):
+                d = DF({c: Vec((["chr2", "chr1"] if c == "chromosome" else ["-", "-"] if c == "gene" else [Term.sym(f"{c}{i}") for i in range(2)])[:nrows], aligned=True) for c in extra}, nrows)
+                d.exact = True
+                return d
+            model.prims[rfi.qn] = reader
+            model.method_prims["sort"] = lambda it, g, *a, ev=ev, **k: ev.append(("sort", id(g)))
+            model.method_prims["sort_columns"] = lambda it, g, *a, ev=ev, **k: ev.append(("sort_columns", id(g)))
+            it = Interp(prog, model)
+            out = tb.guard(lambda: it.run(fi.qn, ["dir/sampleA.cnr", fmt]), f"fmt={fmt} rows={nrows}")
+            if out is None:
+                continue
+            cols = [c for c in out.data.cols if not c.startswith("__")] if isinstance(out, GA) else None
+            ok = isinstance(out, GA) and out.data.n == nrows and set(extra) <= set(cols) and ("sort", id(out)) in ev and out.meta.get("sample_id") == "sampleA"
+            tb.cell(ok, dict(fmt=fmt, rows=nrows, columns=cols, sorted=("sort", id(out)) in ev if isinstance(out, GA) else None, sample_id=out.meta.get("sample_id") if isinstance(out, GA) else None))
+    tb.done("tabio.read does not hand back the parsed table whole and sorted (an empty table must keep its columns: writing it again gives the same header)")
 
 
 def d2_order(chk, prog):
@@ -544,7 +582,10 @@ def run(chk):
     d1_offsets(chk, prog)
     d1_bed_names(chk, prog)
     d1_segnames(chk, prog)
+    from . import C20
+    C20.d3(chk, prog)               # what export seg writes (ids, 1-based starts, enumerated chromosome ids): shared with C20-D3
     d2_sorted(chk, prog)
+    d2_read(chk, prog)
     d2_order(chk, prog)
     d3_sniff(chk, prog)
     d3b_roundtrip_detection(chk, prog)
@@ -594,7 +635,10 @@ MUTANTS = [
     dict(name="vcf-sites shifts end", file=_T + "vcfsimple.py", old='    # Where END is missing, infer from allele lengths\n    table["start"] -= 1\n', new='    # Where END is missing, infer from allele lengths\n    table["start"] -= 1\n    table["end"] -= 1\n', mention="reader:vcf-sites"),
     dict(name="read returns before sort", file=_T + "__init__.py", old="    result.sort_columns()\n    result.sort()\n    return result", new="    result.sort_columns()\n    return result", mention="sort"),
     dict(name="sort only when many rows", file=_T + "__init__.py", old="    result.sort()\n    return result", new="    if len(result) > 1000:\n        result.sort()\n    return result", mention="sort"),
-    dict(name="GenomicArray.sort unstable", file="skgenome/gary.py", old='kind="mergesort")', new='kind="quicksort")', mention="GenomicArray.sort"),
+    # (pandas applies `kind` only when sorting on a single column; a multi-column sort is a stable lexsort whatever `kind` says)
+    dict(name="twin: GenomicArray.sort with kind=quicksort on three columns", expect="silent", file="skgenome/gary.py", old='kind="mergesort")', new='kind="quicksort")'),
+    dict(name="seeded C04g: sort key without the end column", file="skgenome/gary.py", old='.sort_values(by=["_sort_key_", "start", "end"], kind="mergesort")', new='.sort_values(by=["_sort_key_", "start"], kind="mergesort")'),
+    dict(name="GenomicArray.sort keeps the old index labels", file="skgenome/gary.py", old='            .drop("_sort_key_", axis=1)\n            .reset_index(drop=True)\n', new='            .drop("_sort_key_", axis=1)\n'),
     dict(name="GenomicArray.sort ignores end", file="skgenome/gary.py", old='by=["_sort_key_", "start", "end"]', new='by=["_sort_key_", "start"]', mention="GenomicArray.sort"),
     dict(name="sniffer returns unknown name", file=_T + "__init__.py", old="                return 'interval'\n", new="                return 'interval_list'\n", mention="interval_list"),
     dict(name="read_auto does not rewind", file=_T + "__init__.py", old="    if hasattr(infile, \"seek\"):\n        infile.seek(0)\n", new="", mention="read_auto"),
